@@ -28,6 +28,7 @@ MONO_WP = {'params_bit', 'ops_bit', 'mpic_latency', 'mpic_energy', 'ne16_latency
 MONO_IP = {'ops_bit', 'mpic_latency', 'mpic_energy'}
 SIZE_VARS = ('cin', 'cout', 'ch', 'k0', 'k1', 'k', 'o2', 'o3')
 ENV_KEYS = ('cin', 'cout', 'k0', 'k1', 'o2', 'o3', 'wp', 'ip', 'bias', 'groups', 'theta')
+REP_TEXT = {'int': 'plain Python ints', 'float': 'plain Python floats', 'f32': 'float32 0-dim tensors', 'module': 'vars() of a real nn module + the output shape of a real forward', 'f64': 'float64 0-dim tensors'}
 IMPORTS = ['Plinio.Base.Qx', 'Plinio.Base.Expr', 'Plinio.Model.CostFns', 'Plinio.Gen.CostGen']
 GEN_V = os.path.join(COQ, 'Gen', 'CostGen.v')
 
@@ -48,18 +49,37 @@ def T(torch, x):
 _BIAS = object()
 
 
-def mk_spec(torch, F, env):
-    """hand-built layer description for cost function F from an environment (dict of Fractions)"""
+REPS = ('int', 'float', 'f32', 'module')      # besides 'f64' (float64 0-dim tensors) used by the sweeps
+
+
+def rep_value(torch, rep, x):
+    if rep == 'int':
+        assert Fraction(x).denominator == 1
+        return int(x)
+    if rep == 'float':
+        return float(x)
+    if rep == 'f32':
+        return torch.tensor(float(x), dtype=torch.float32)
+    return T(torch, x)
+
+
+def mk_spec(torch, F, env, rep='f64'):
+    """layer description for cost function F from an environment (dict of Fractions).  rep: how the numeric entries
+    are represented — 'f64'/'f32' 0-dim tensors (what the NAS layers hand over), plain 'int' / 'float' (static
+    descriptions), 'module': vars() of a real nn.Conv1d/Conv2d/Linear + the output shape of a real forward."""
     e = env
+    if rep == 'module':
+        return mk_spec_module(torch, F, e)
+    cv = lambda x: rep_value(torch, rep, x)
     s = {'_parameters': {'bias': _BIAS if e['bias'] else None}, 'groups': int(e['groups']),
-         'w_precision': T(torch, e['wp']), 'in_precision': T(torch, e['ip']), 'a_precision': T(torch, e['ip']),
-         'w_theta_alpha': T(torch, e['theta'])}
+         'w_precision': cv(e['wp']), 'in_precision': cv(e['ip']), 'a_precision': cv(e['ip']),
+         'w_theta_alpha': cv(e['theta'])}
     cout_i = int(math.ceil(e['cout']))
     if F.kind == 'linear':
-        s['in_features'], s['out_features'] = T(torch, e['cin']), T(torch, e['cout'])
+        s['in_features'], s['out_features'] = cv(e['cin']), cv(e['cout'])
         s['output_shape'] = (1, cout_i)
     else:
-        s['in_channels'], s['out_channels'] = T(torch, e['cin']), T(torch, e['cout'])
+        s['in_channels'], s['out_channels'] = cv(e['cin']), cv(e['cout'])
         if F.kind == 'conv1d':
             s['kernel_size'] = (int(e['k0']),)
             s['output_shape'] = (1, cout_i, int(e['o2']))
@@ -69,13 +89,69 @@ def mk_spec(torch, F, env):
     return s
 
 
-def call(torch, F, env):
+def mk_spec_module(torch, F, e):
+    """what PIT hands over for a layer it does not optimise (full_cost=True): vars(layer) updated with the shapes of a
+    real forward pass; the bit-width entries (absent from a float layer) are added as plain ints"""
+    import torch.nn as nn
+    cin, cout, g, bias = int(e['cin']), int(e['cout']), int(e['groups']), bool(e['bias'])
+    with torch.no_grad():
+        if F.kind == 'linear':
+            m = nn.Linear(cin, cout, bias=bias)
+            x = torch.zeros(1, cin)
+        elif F.kind == 'conv1d':
+            m = nn.Conv1d(cin, cout, int(e['k0']), groups=g, bias=bias)
+            x = torch.zeros(1, cin, int(e['o2']) + int(e['k0']) - 1)
+        else:
+            m = nn.Conv2d(cin, cout, (int(e['k0']), int(e['k1'])), groups=g, bias=bias)
+            x = torch.zeros(1, cin, int(e['o2']) + int(e['k0']) - 1, int(e['o3']) + int(e['k1']) - 1)
+        s = dict(vars(m))
+        s['output_shape'] = m(x).shape
+    s.update(w_precision=int(e['wp']), in_precision=int(e['ip']), a_precision=int(e['ip']), w_theta_alpha=int(e['theta']))
+    return s
+
+
+def call(torch, F, env, rep='f64'):
     """-> (value as float | None, exception type name | None)"""
     try:
-        v = F.fn(mk_spec(torch, F, env))
+        v = F.fn(mk_spec(torch, F, env, rep))
     except Exception as ex:
         return None, type(ex).__name__
     return float(v), None
+
+
+def rep_tol(F, e, v, rep):
+    """static descriptions may be computed in float32 (torch.tensor(float(x)) is a float32 tensor): exact where the
+    value is an integer below 2^24 (exactly representable on every path), 2^-20 relative otherwise (DESIGN §4)"""
+    if rep == 'f64':
+        return tol_for(F, e)
+    if v is not None and tol_for(F, e) == 0 and abs(v) < 2 ** 24 and float(v).is_integer():
+        return Fraction(0)
+    return TOL20
+
+
+def static_envs(F, quick):
+    """integer-sized layers (>= 1 everywhere, theta = 1) for the representation stream: the base points, a few channel
+    counts around the tile sizes, and one unsupported precision for the bit-width-restricted models"""
+    out, seen = [], set()
+
+    def add(e):
+        k = envkey(e)
+        if k not in seen:
+            seen.add(k)
+            out.append(e)
+    for b in bases_for(F, quick):
+        b = dict(b, theta=Fraction(1))
+        add(b)
+        for c in (1, 3, 4, 5, 33):
+            add(dict(b, cin=Fraction(c), cout=Fraction(c), groups=Fraction(c)) if F.dw else dict(b, cout=Fraction(c)))
+        if not F.dw:
+            for c in (1, 17):
+                add(dict(b, cin=Fraction(c)))
+        if F.spec in ('mpic_latency', 'mpic_energy'):
+            add(dict(b, ip=Fraction(3)))
+        if F.spec in ('ne16_latency', 'diana_latency'):
+            add(dict(b, ip=Fraction(4)))
+    return out
 
 
 def supported(F, e):
@@ -463,7 +539,7 @@ def run(ctx):
                         'float64 evaluation of the implementation: integer/dyadic results compared with =, MPIC / DIANA-analog within 2^-40, MPIC energy (float32 constant) within 2^-20']
     ctx.rule = ('every registered function of every spec in plinio.cost x base points (3 quick / 10 thorough) x one-dimensional sweeps: channels 0..130 (quick: through the first base point, multiples of 16 +-1 through the others) + {255..257, 511..513} + quarter-step '
                 'fractions (around tile boundaries quick / all thorough), kernel entries {1,3,5,7} (each and jointly), output sizes 1..33, bits {0,1,2,3,4,6,8,16} for weights and activations, '
-                'bias on/off, theta, groups; one case = one call of a cost function (or STE helper); non-trivial = returns a cost > 0 or rejects; distinct by (function, arguments)')
+                'bias on/off, theta, groups; plus every function on integer-sized layers (base points, channel counts around tile sizes, one unsupported precision) described with plain ints, plain floats, float32 tensors and vars() of a real nn module + real forward shapes; one case = one call of a cost function (or STE helper); non-trivial = returns a cost > 0 or rejects; distinct by (function, arguments)')
 
     notes = ctx.notes
     fns, live_tables = load_fns(torch, res, notes)
@@ -485,7 +561,7 @@ def run(ctx):
                 if k not in cache:
                     v, exc = call(torch, F, e)
                     cache[k] = (v, exc)
-                    cases.append((F, e, v, exc))
+                    cases.append((F, e, v, exc, 'f64'))
                     ctx.case(k, nontrivial=(exc is not None) or (v is not None and v > 0),
                              kind='%s:%s' % (F.spec, 'reject' if exc else 'value'),
                              sample={'fn': F.id, 'env': jenv(e), 'impl': v if exc is None else 'EXC:' + exc} if (var == 'cout' and e['cout'] == 33) else None)
@@ -493,6 +569,27 @@ def run(ctx):
                 v, exc = cache[k]
                 pts.append((e, v, exc))
             oracle_sweep(F, var, pts, report)
+    # the same functions on the OTHER representations of a valid layer description: plain ints, plain floats,
+    # float32 tensors, vars() of a real module + the shapes of a real forward (static layers, full_cost=True)
+    for F in fns:
+        for e in static_envs(F, quick):
+            for rep in REPS:
+                v, exc = call(torch, F, e, rep)
+                cases.append((F, e, v, exc, rep))
+                ctx.case((F.idx, envkey(e), rep), nontrivial=(exc is not None) or (v is not None and v > 0), kind='rep:%s:%s' % (rep, 'reject' if exc else 'value'),
+                         sample={'fn': F.id, 'representation': rep, 'env': jenv(e), 'impl': v if exc is None else 'EXC:' + exc} if (rep == 'module' and F.spec == 'gap8_latency') else None)
+                sup = supported(F, e)
+                info = {'env': jenv(e), 'representation': rep}
+                if exc is not None and sup is True:
+                    report('raises-on-valid-layer:%s:%s' % (F.id, 'float32-tensors' if rep == 'f32' else 'static-description'), F, dict(info, exception=exc),
+                           '%s raised %s on the valid layer %s described with %s' % (F.id, exc, jenv(e), REP_TEXT[rep]))
+                elif exc is None and sup is False:
+                    report('accepts-unsupported-precision:%s:%s' % (F.id, rep), F, dict(info, value=v),
+                           '%s returned %r for the unsupported precision %s described with %s' % (F.id, v, jenv(e), REP_TEXT[rep]))
+                elif exc is None:
+                    if not (math.isfinite(v) and v >= 0 and (v > 0 or e['wp'] < 2 or e['ip'] < 2)):
+                        report('not-finite-nonneg-positive:%s:%s' % (F.id, rep), F, dict(info, value=repr(v)),
+                               '%s returned %r for the non-empty layer %s described with %s' % (F.id, v, jenv(e), REP_TEXT[rep]))
     # depthwise = generic per group (hardware-independent specs)
     byid = {F.id: F for F in fns}
     for sname in cost2coq.HW_INDEPENDENT:
@@ -527,7 +624,7 @@ def run(ctx):
     if built:
         try:
             lits, metas = [], []
-            for F, e, v, exc in cases:
+            for F, e, v, exc, rep in cases:
                 if F.model is None:
                     continue
                 if exc is None and not math.isfinite(v):
@@ -535,8 +632,8 @@ def run(ctx):
                     continue
                 exp = Raw('(@None Q)') if exc is not None else some(Fraction(v))
                 envlit = coq([e[k] for k in ENV_KEYS])
-                lits.append('(%s, %s, %s, %s)' % (F.model, envlit, coq(exp), coq(tol_for(F, e))))
-                metas.append({'model': F.model, 'envlit': envlit, 'case': {'fn': F.id, 'env': jenv(e), 'impl': v, 'exception': exc}})
+                lits.append('(%s, %s, %s, %s)' % (F.model, envlit, coq(exp), coq(rep_tol(F, e, v, rep))))
+                metas.append({'model': F.model, 'envlit': envlit, 'case': {'fn': F.id, 'env': jenv(e), 'representation': rep, 'impl': v, 'exception': exc}})
             for ex, v, meta in hpairs:
                 mt = '(fun _ => Some (%s))' % ex
                 lits.append('(%s, [], %s, %s)' % (mt, coq(some(v)), coq(TOL20 if meta[-1] == 'float32' else Fraction(0))))
@@ -628,8 +725,10 @@ def replay(r):
     fe = lambda d: {k: Fraction(v) for k, v in d.items()}
     key = r.get('key', '')
     e = fe(c['env'])
-    v, exc = call(torch, F, e)
-    print('replayed %s on %s -> %s' % (F.id, c['env'], v if exc is None else 'raises ' + exc))
+    rep = c.get('representation', 'f64')
+    v, exc = call(torch, F, e, rep)
+    print('replayed %s on %s (described with %s) -> %s' % (F.id, c['env'], REP_TEXT[rep], v if exc is None else 'raises ' + exc))
+
     if key.startswith('not-monotone'):
         e2 = fe(c['env_larger'])
         v2, exc2 = call(torch, F, e2)
